@@ -47,6 +47,8 @@ def _next_doy(today, m, dd):
 
 def check(ctx, rep, tier):
     eng = get_engine(ctx)
+    from . import spellings
+    spellings.check(ctx, rep, "weekday-spellings", lambda g: g in ("mon", "tue", "wed", "thu", "fri", "sat", "sun", "monday", "tuesday", "wednesday", "thursday", "friday", "saturday", "sunday"), floor=1)
     RELEVANT.names.clear()
     rep.describe("nearest-future", "the summary term of each latent rule (located by role: "
                  "the unary rule on day-of-month / weekday / day+month / part-of-day values) "
@@ -149,7 +151,8 @@ def _doy(ctx, rep, eng, sweep):
         ld = ("attr", ("param", 0, rule.params[1]), "day")
         mlen = [31, 29, 31, 30, 31, 30, 31, 31, 30, 31, 30, 31]
         pairs = [(m, d) for m in range(1, 13) for d in (1, 15, 28, 29, 30, 31) if d <= mlen[m - 1]]
-        step = max(1, len(sweep) // (400 if len(sweep) > 5000 else 150))
+        from .relspec import stride
+        step = stride(len(sweep), 400 if len(sweep) > 5000 else 150)
 
         def cases():
             for ts in sweep[::step] + [t for t in sweep if (t.month, t.day) in ((2, 28), (2, 29), (3, 1), (12, 31), (1, 1))]:
@@ -176,7 +179,8 @@ def _pod(ctx, rep, eng, sweep):
     if base is None:
         rep.undecided("nearest-future", "part-of-day shape", "-", "no part-of-day-only shape is reachable")
         return
-    step = max(1, len(sweep) // (300 if len(sweep) > 5000 else 90))
+    from .relspec import stride
+    step = stride(len(sweep), 300 if len(sweep) > 5000 else 90)
     for rule in _unary(ctx, "isPOD"):
         c = rule_construct(rule, "part of day")
         bad = None
